@@ -151,8 +151,19 @@ def run_impl(case):
         obs["cb"] = {"ok": True}
     except BaseException as e:  # noqa: BLE001
         obs["cb"] = exc_record(e)
+    def snap(x):
+        if isinstance(x, np.ndarray) and x.dtype != object:
+            return x.tobytes()
+        if isinstance(x, (list, tuple, np.ndarray)):
+            return tuple(snap(y) for y in x)
+        return repr(x)
+
+    before = (snap(B), snap(P))
     if safe_to_construct(b, p):
         try:
+            if case["flavour"] != "list":
+                SearchSpace(B, P, False)          # the caller's arrays are reused for a second construction: the result below
+                                                  # must not depend on that (and the arrays must come back untouched)
             s = SearchSpace(B, P, False)
         except BaseException as e:  # noqa: BLE001
             obs["ctor"] = exc_record(e)
@@ -168,6 +179,7 @@ def run_impl(case):
                 obs["space_size"] = s.space_size if type(s.space_size) is int else repr(s.space_size)
                 obs["dims"] = s.dims if type(s.dims) is int else repr(s.dims)
                 obs["_grids"] = grids
+    obs["inputs_untouched"] = bool(before == (snap(B), snap(P)))
     return obs
 
 
@@ -360,6 +372,8 @@ def oracle(case, obs, stats):
                 fails.append("space_size: space_size/dims are not Python ints")
             else:
                 fails += oracle_grid(b, p, obs, stats)
+    if obs.get("inputs_untouched") is False:
+        fails.append("inputs: the bounds / precision arrays given by the caller were modified")
     return fails
 
 
